@@ -41,7 +41,7 @@ PROBES = ["add_to_unterminated_document", "replace_field_that_has_comments",
 def generate(seed, run, tier):
     return repro_sim.generate_case(stream_rng(seed, ID, run, "world"),
                                    stream_rng(seed, ID, run, "swarm"),
-                                   stream_rng(seed, ID, run, "sched"), "C05")
+                                   stream_rng(seed, ID, run, "sched"), "C05", tier)
 
 
 def describe(case):
